@@ -1,7 +1,9 @@
 (* Misc/LockInst.v — the variant of the lock protocol that the sources in /repo implement, read off
-   src/lockfile.rs and src/lsm.rs by tools/gen_params.py into Misc/LockParams.v (regenerated on every check). *)
+   src/lockfile.rs, src/lsm.rs and src/checkpoint.rs by tools/gen_params.py into Misc/LockParams.v (regenerated on
+   every check). *)
 From SKV Require Import Misc.LockParams Misc.Lock.
 
 Definition current : variant :=
   {| trunc_on_open := LOCK_TRUNC_ON_OPEN; subdirs_before_lock := LOCK_SUBDIRS_BEFORE_LOCK;
-     detached_drop_closes := LOCK_DETACHED_DROP_CLOSES |}.
+     detached_drop_closes := LOCK_DETACHED_DROP_CLOSES;
+     restore_keeps_lock_name := LOCK_RESTORE_KEEPS_LOCK_NAME |}.
